@@ -1,1 +1,108 @@
-/-! # C07 — property theorems (to be filled in) -/
+import JokerVerif.Model.Units
+import JokerVerif.Props.C01
+/-!
+# C07 — physical results are invariant under the choice of units
+-/
+open Matrix
+
+namespace Units
+variable {α : Type} [Field α]
+
+/-- re-expressing a quantity in another unit does not change any internal number -/
+theorem conv_invariant (q : Quantity α) (c target : α) (hc : c ≠ 0) :
+    conv (reexpress c q) target = conv q target := by
+  unfold conv reexpress
+  field_simp
+
+/-- hence the whole internal state (data in the data unit, prior means / widths, `σ_K0`, `max_K`, `P0` in days,
+every packed sample column) is identical for two unit-transformed twins of one problem -/
+theorem internal_state_unit_free : ∀ (qs : List (Quantity α)) (cs targets : List α),
+    (∀ c ∈ cs, c ≠ 0) → cs.length = qs.length →
+    internalize (reexpressAll cs qs) targets = internalize qs targets := by
+  intro qs
+  induction qs with
+  | nil => intro cs targets _ h; simp [internalize, reexpressAll]
+  | cons q qs ih =>
+    intro cs targets hcs hlen
+    cases cs with
+    | nil => simp at hlen
+    | cons c cs =>
+      cases targets with
+      | nil => simp [internalize]
+      | cons t ts =>
+        simp only [internalize, reexpressAll, List.zipWith_cons_cons]
+        rw [conv_invariant q c t (hcs c List.mem_cons_self)]
+        congr 1
+        exact ih cs ts (fun c' hc' => hcs c' (List.mem_cons_of_mem _ hc')) (by simpa using hlen)
+
+end Units
+
+namespace Kernel
+noncomputable section
+variable {n k : ℕ}
+
+/-- the same problem with the *data unit* `c` times smaller: velocities, errors, jitter and prior means are
+multiplied by `c`, prior variances by `c²`, the design matrix is unchanged -/
+def scaleIn (c : ℝ) (x : KIn n k ℝ) : KIn n k ℝ :=
+  { M := x.M, y := Vector.ofFn fun i => c * x.y[i], ivar := Vector.ofFn fun i => x.ivar[i] / c ^ 2,
+    s := c * x.s, mu := Vector.ofFn fun j => c * x.mu[j], lam := Vector.ofFn fun j => c ^ 2 * x.lam[j] }
+
+theorem scaleIn_phys (c : ℝ) (hc : 0 < c) (x : KIn n k ℝ) (σ : Fin n → ℝ) (h : Phys x σ) :
+    Phys (scaleIn c x) (fun i => c * σ i) := by
+  refine ⟨fun i => mul_pos hc (h.sig_pos i), fun i => ?_, fun j => ?_⟩
+  · have := h.ivar_eq i
+    have e : vfun (scaleIn c x).ivar i = vfun x.ivar i / c ^ 2 := by
+      simp only [scaleIn, vfun_ofFn]; rfl
+    rw [e, this, mul_pow]
+    have h1 : (σ i) ^ 2 ≠ 0 := pow_ne_zero 2 (h.sig_pos i).ne'
+    have h2 : c ^ 2 ≠ 0 := pow_ne_zero 2 hc.ne'
+    field_simp
+  · have := h.lam_pos j
+    have e : vfun (scaleIn c x).lam j = c ^ 2 * vfun x.lam j := by
+      simp only [scaleIn, vfun_ofFn]; rfl
+    rw [e]
+    positivity
+
+/-- **Jacobian constant**: changing the data unit by the factor `c` changes the marginal ln-likelihood by exactly
+`− n · ln c`, for every data set, prior and nonlinear sample -/
+theorem ll_data_unit_jacobian (c : ℝ) (hc : 0 < c) (x : KIn n k ℝ) (σ : Fin n → ℝ) (h : Phys x σ) :
+    kll (scaleIn c x) = kll x - n * Real.log c := by
+  have h' := scaleIn_phys c hc x σ h
+  rw [kernel_ll_eq_lnN x σ h, kernel_ll_eq_lnN (scaleIn c x) _ h']
+  obtain ⟨_, _, hdet, _⟩ := kernel_welldefined x σ h
+  have hB := h.B_eq
+  have hy : vfun (scaleIn c x).y = c • vfun x.y := by
+    funext i; simp only [scaleIn, vfun_ofFn]; rfl
+  have hmu : (scaleIn c x).M.toM *ᵥ vfun (scaleIn c x).mu = c • (x.M.toM *ᵥ vfun x.mu) := by
+    have : vfun (scaleIn c x).mu = c • vfun x.mu := by funext j; simp only [scaleIn, vfun_ofFn]; rfl
+    rw [this, mulVec_smul]; rfl
+  have hS : diagonal (fun i => (c * σ i) ^ 2) + ((scaleIn c x).s ^ 2) • (1 : Matrix (Fin n) (Fin n) ℝ)
+        + (scaleIn c x).M.toM * diagonal (vfun (scaleIn c x).lam) * (scaleIn c x).M.toMᵀ
+      = (c ^ 2) • (diagonal (fun i => (σ i) ^ 2) + (x.s ^ 2) • (1 : Matrix (Fin n) (Fin n) ℝ)
+        + x.M.toM * diagonal (vfun x.lam) * x.M.toMᵀ) := by
+    have hl : vfun (scaleIn c x).lam = fun j => c ^ 2 * vfun x.lam j := by funext j; simp only [scaleIn, vfun_ofFn]; rfl
+    have hd : diagonal (fun j => c ^ 2 * vfun x.lam j) = (c ^ 2) • diagonal (vfun x.lam) := by
+      rw [← diagonal_smul]; rfl
+    have hs : (scaleIn c x).s = c * x.s := rfl
+    have hM : (scaleIn c x).M = x.M := rfl
+    rw [hl, hd, hs, hM, smul_add, smul_add, Matrix.mul_smul, Matrix.smul_mul, smul_smul]
+    congr 2
+    · rw [← diagonal_smul]; congr 1; funext i; simp [mul_pow]
+    · rw [mul_pow]
+  rw [hy, hmu, hS]
+  rw [lnN_unit_jacobian _ _ _ c hc]
+  rw [← hB]; exact hdet.ne'
+
+/-- the acceptance rule only sees differences `ll_i − ll_j`, and those are unit-free: the set of accepted prior
+samples does not depend on the unit of the data -/
+theorem accepted_set_unit_invariant (c : ℝ) (hc : 0 < c) (x₁ x₂ : KIn n k ℝ) (σ₁ σ₂ : Fin n → ℝ)
+    (h₁ : Phys x₁ σ₁) (h₂ : Phys x₂ σ₂) :
+    kll (scaleIn c x₁) - kll (scaleIn c x₂) = kll x₁ - kll x₂ := by
+  rw [ll_data_unit_jacobian c hc x₁ σ₁ h₁, ll_data_unit_jacobian c hc x₂ σ₂ h₂]; ring
+
+end
+end Kernel
+
+-- non-vacuity
+example : Units.conv (Units.reexpress (1000 : ℚ) ⟨2500, 1⟩) 1 = Units.conv ⟨2500, 1⟩ 1 := by decide +kernel
+example : Units.conv (⟨5/2, 1000⟩ : Units.Quantity ℚ) 1 = 2500 := by decide +kernel
